@@ -23,6 +23,11 @@ class PathDomain(EvDomain):
         return super().opaque(n)
 
     def call_result(self, ex, n, q, base, on, ov, vals, st, fr):
+        if isinstance(ov, Ref):
+            ov_ = st.store.get(ov.loc)
+            if isinstance(ov_, Ref): ov_ = st.store.get(ov_.loc)
+            if ov_ is not None: ov = ov_
+        if q == 'tulz::Path::getWorkingDirectory': return Sym(f'cwd@{n.id}')
         if q in ('tulz::Path::exists',): return self._b('exists', n)
         if q in ('tulz::Path::isFile',): return self._b('is_file', n)
         if q in ('tulz::Path::isDirectory',): return self._b('is_dir', n)
@@ -86,6 +91,22 @@ def run(facts, rep, tier):
                         hname = f'handle:{o.name.split("::")[-1]}@{o.node.id}'
                         closes = [e for e in E[E.index(o):] if e.kind == 'call' and e.name.split('::')[-1] == want and e.args and isinstance(e.args[0], Sym) and e.args[0].name == hname]
                         ended = Pth.end
+                        if open_ok and not closes:
+                            # ownership handed on: returned inside a unique_ptr whose deleter calls the matching close (checked), or returned raw (caller's duty: not decided)
+                            rv = Pth.ret
+                            returned = isinstance(rv, Sym) and rv.name == hname and ((f.d.get('ret') or '').rstrip().endswith('*') or 'unique_ptr<' in (f.d.get('ret') or '') or 'shared_ptr<' in (f.d.get('ret') or ''))
+                            m_ = None
+                            if returned:
+                                import re as _re
+                                m_ = _re.match(r'std::unique_ptr<[^,]+,\s*([\w:]+)\s*>', f.d.get('ret') or '')
+                            if returned and m_:
+                                dels = [g for g in facts.fns if (g.d.get('classfull') or g.d.get('class')) == m_.group(1) and g.qname.endswith('::operator()')]
+                                okd = bool(dels) and any(x.k == 'call' and x.callee_base() == want for x in dels[0].nodes())
+                                rep.check(okd, 'PA.1', f'{f.name}: the result of {o.name}() is returned in a {m_.group(0)[:60]} whose deleter calls {want}()', o.site,
+                                          f'the deleter {m_.group(1)} does not call {want}()', key=f'PA.1|deleter|{f.name}', fn=f.name)
+                                continue
+                            if returned:
+                                rep.inconclusive('PA.1', f'{f.name}: {o.name}() at line {o.node.line}', o.site, 'the open handle is returned to the caller: who closes it is not followed'); continue
                         if open_ok:
                             ok = len(closes) == 1
                             rep.check(ok, 'PA.1', f'{f.name}: {o.name}() at line {o.node.line} succeeded -> {want}() exactly once on this path (ends: {ended})', o.site,
@@ -107,46 +128,56 @@ def run(facts, rep, tier):
         skips = [n for n in body.walk() if n.k == 'if' and n.n('t') is not None and any(x.k == 'continue' for x in n.n('t').walk())]
         adds = [n for n in body.walk() if n.k == 'call' and n.callee_base() in ('emplace_front', 'push_front', 'emplace_back', 'push_back', 'emplace_after', 'insert') and n.n('object') is not None]
         rep.check(len(adds) == 1, 'PA.2', 'exactly one insertion into the result per directory entry', adds[0].shortloc() if adds else loop.shortloc(), f'{len(adds)} insertions in the loop body', key='PA.2|one-insert', fn=lc.name)
-        if len(skips) != 1:
-            rep.check(False, 'PA.2', 'dot filter', loop.shortloc(), f'{len(skips)} skip conditions in the readdir loop (expected one, for "." and "..")', key='PA.2|filter-count', fn=lc.name)
-        else:
-            cond = skips[0].n('c')
-            # the string variable(s) the condition talks about: locals initialised from ent->d_name
-            names = {}
-            for n in body.walk():
-                if n.k == 'decl':
-                    for v in n.vars:
-                        if v.get('init') and any(x.k == 'member' and x.name in ('d_name', 'cFileName') for x in Node(lc.tu, v['init']).walk()): names[v['decl']] = v['name']
-            chars, strs = literals_in([cond])
-            chars |= {'.'}
-            rows = 0; bad = None
-            try:
-                for s in table(chars, 4):
-                    env = {d: s for d in names}
-                    ev = StrEval(env, facts)
-                    # direct uses of ent->d_name
-                    val = _eval_with_member(ev, cond, s)
-                    rows += 1
-                    want = s in ('.', '..')
-                    if val != want and bad is None: bad = (s, val)
-                rep.check(bad is None, 'PA.2', f'the skip condition is true exactly for "." and ".." ({rows} names over the alphabet {sorted(chars)} + other, length <= 4)', cond.shortloc(),
-                          '' if bad is None else (f'the entry named {bad[0]!r} is {"skipped" if bad[1] else "not skipped"}: ' + ('listChildren misses a real entry (and a directory\'s size loses that subtree)' if bad[1] else 'the pseudo entry is returned (size() recurses forever / counts the parent)')),
-                          key='PA.2|filter-table', fn=lc.name)
-            except Unsupported as e:
-                rep.inconclusive('PA.2', 'dot filter', cond.shortloc(), f'condition outside the string-table vocabulary: {e}')
+        # the string variable(s) the filter talks about: locals initialised from ent->d_name
+        names = {}
+        for n in body.walk():
+            if n.k == 'decl':
+                for v in n.vars:
+                    if v.get('init') and any(x.k == 'member' and x.name in ('d_name', 'cFileName') for x in Node(lc.tu, v['init']).walk()): names[v['decl']] = v['name']
+        if len(adds) == 1:
+            # the conditions under which the insertion is reached within one iteration (`if (dot) continue;`, `if (!dot) add`, nested ifs ...)
+            lc_c = loop.n('c')
+            conds = [(c, pol) for c, pol in common.conditions_at(lc, adds[0]) if any(x.id == c.id for x in body.walk())]
+            if not conds:
+                rep.violation('PA.2', 'dot filter', adds[0].shortloc(), 'every directory entry is recorded unconditionally: "." and ".." are returned (size() recurses forever / counts the parent)', key='PA.2|filter-count', fn=lc.name)
+            else:
+                chars = {'.'}
+                for c, _ in conds: chars |= literals_in([c])[0]
+                rows = 0; bad = None
+                try:
+                    for s_ in table(chars, 4):
+                        env = {d: s_ for d in names}
+                        ev = StrEval(env, facts)
+                        added = all(_eval_with_member(ev, c, s_) == pol for c, pol in conds)
+                        rows += 1
+                        want = s_ not in ('.', '..')
+                        if added != want and bad is None: bad = (s_, not added)
+                    rep.check(bad is None, 'PA.2', f'an entry is skipped exactly when its name is "." or ".." ({rows} names over the alphabet {sorted(chars)} + other, length <= 4)', conds[0][0].shortloc(),
+                              '' if bad is None else (f'the entry named {bad[0]!r} is {"skipped" if bad[1] else "not skipped"}: ' + ('listChildren misses a real entry (and a directory\'s size loses that subtree)' if bad[1] else 'the pseudo entry is returned (size() recurses forever / counts the parent)')),
+                              key='PA.2|filter-table', fn=lc.name)
+                except Unsupported as e:
+                    rep.inconclusive('PA.2', 'dot filter', conds[0][0].shortloc(), f'condition outside the string-table vocabulary: {e}')
         # the inserted value is the entry name
         if adds:
             a = adds[0].ns('args')
             ok = a and a[-1] is not None and (any(x.k == 'ref' and x.decl in names for x in a[-1].walk()) or any(x.k == 'member' and x.name == 'd_name' for x in a[-1].walk()))
             rep.check(ok, 'PA.2', 'the recorded value is the entry\'s name', adds[0].shortloc(), 'something else than the entry name is recorded', key='PA.2|value', fn=lc.name)
-    thr = [n for n in lc.nodes() if n.k == 'throw']
+    def with_helpers(fn_, depth=0):
+        out = list(fn_.nodes())
+        if depth < 2:
+            for n in fn_.nodes():
+                if n.k == 'call' and n.callee_in_root and not strip_targs(n.calleeq or '').startswith(f'{P}::'):
+                    for t in facts.resolve(n): out += with_helpers(t, depth + 1)
+        return out
+    lc_nodes = with_helpers(lc)
+    thr = [n for n in lc_nodes if n.k == 'throw']
     kinds = set()
     for t in thr:
         for x in t.walk():
             if x.k == 'ref' and x.dk == 'enum': kinds.add(x.name)
     for n in lc.nodes():
         pass
-    chk = [n for n in lc.nodes() if n.k == 'call' and strip_targs(n.calleeq or '') == f'{P}::exists']
+    chk = [n for n in lc_nodes if n.k == 'call' and strip_targs(n.calleeq or '') == f'{P}::exists']
     rep.check('NotDirectory' in kinds and bool(chk), 'PA.2', f'listChildren throws NotFound (missing) / NotDirectory (not a directory): {sorted(kinds)}', lc.shortloc(), 'documented exceptions missing', key='PA.2|exceptions', fn=lc.name)
     # ---- PA.3 -----------------------------------------------------------------------------------------------------------------------
     isf = fn['isFile']
@@ -156,7 +187,14 @@ def run(facts, rep, tier):
         want = ex_ and not isd
         rep.check(vals == {want}, 'PA.3', f'isFile() row (exists={ex_}, isDirectory={isd}) = {sorted(map(str, vals))}', isf.shortloc(), f'expected {want}', key='PA.3|isFile', fn=isf.name)
     sz = fn['size']
-    for is_file in (True, False):
+    recursive = any(n.k == 'call' and strip_targs(n.calleeq or '') == f'{P}::size' for n in sz.nodes())
+    if not recursive:
+        worklist = [n for n in sz.nodes() if n.k == 'call' and n.callee_base() in ('push_back', 'emplace_back', 'push', 'push_front', 'emplace_front', 'emplace') and n.n('object') is not None and n.n('object').k == 'ref'
+                    and any(x.k == 'call' and strip_targs(x.calleeq or '') == f'{P}::join' for x in n.walk())]
+        helper = [n for n in sz.nodes() if n.k == 'call' and n.callee_in_root and not strip_targs(n.calleeq or '').startswith(f'{P}::') and any(t is not None and any(x.k == 'call' and strip_targs(x.calleeq or '') == f'{P}::listChildren' for x in t.nodes()) for t in facts.resolve(n))]
+        if worklist or helper: rep.inconclusive('PA.3', 'size()', sz.shortloc(), 'size() is not written as a recursion over listChildren() (work-list / helper): the traversal is not followed')
+        else: rep.violation('PA.3', 'size() of a directory: the size of every child is measured (recursively)', sz.shortloc(), 'size() neither calls itself on the children nor queues them: a directory\'s size is not the total of everything beneath it', key='PA.3|dir', fn=sz.name)
+    for is_file in ((True, False) if recursive else ()):
         dom = PathDomain(dict(exists=True, is_file=is_file, is_dir=not is_file, open_ok=True))
         res = run_paths(facts, sz, dom)
         for Pp, E in res:
@@ -183,7 +221,7 @@ def run(facts, rep, tier):
                     rep.check(r == want, 'PA.3', 'size() of a directory returns the sum of the children\'s sizes', sz.shortloc(), f'returns {Pp.ret}', key='PA.3|dir-sum', fn=sz.name)
     recj = [n for n in sz.nodes() if n.k == 'call' and strip_targs(n.calleeq or '') == f'{P}::join']
     okj = len(recj) >= 1 and recj[0].ns('args')[0] is not None and recj[0].ns('args')[0].k == 'unop' and recj[0].ns('args')[0].op == '*'
-    rep.check(okj, 'PA.3', 'children are measured as join(*this, child)', recj[0].shortloc() if recj else sz.shortloc(), 'child sizes are not taken relative to this directory', key='PA.3|join', fn=sz.name)
+    if recursive: rep.check(okj, 'PA.3', 'children are measured as join(*this, child)', recj[0].shortloc() if recj else sz.shortloc(), 'child sizes are not taken relative to this directory', key='PA.3|join', fn=sz.name)
     # ---- PA.4 -------------------------------------------------------------------------------------------------------------------------------
     joins = [f for f in facts.by_name.get(f'{P}::join', []) if len(f.d['params']) == 2 and 'basic_string' in f.d['params'][0]['ctype']]
     if len(joins) != 1: rep.anchor_missing(f'{P}::join(string, string)', f'{len(joins)} candidates')
@@ -229,16 +267,31 @@ def run(facts, rep, tier):
                     if not ok: why = ('the working directory is read after it was changed: the "old" directory that is restored later is the visited one' if gets and sets and gets[0] > sets[0] else f'{len(gets)} getWorkingDirectory / {len(sets)} setWorkingDirectory / {len(saves)} saves')
                     rep.check(ok, 'PA.5', 'visit(): getWorkingDirectory() is saved into m_oldDir before setWorkingDirectory(m_dir)', E[sets[0]].site if sets else visit.shortloc(), why, key='PA.5|visit-order', fn=visit.name)
                     if sets:
-                        a = E[sets[0]].node.ns('args')
-                        rep.check(bool(a) and a[0] is not None and a[0].is_field('m_dir'), 'PA.5', 'visit() changes into m_dir', E[sets[0]].site, 'changes into something else', key='PA.5|visit-target', fn=visit.name)
+                        a = E[sets[0]].node.ns('args'); av = E[sets[0]].args
+                        v0 = av[0] if av else None
+                        is_dir = (bool(a) and a[0] is not None and a[0].is_field('m_dir')) or (isinstance(v0, Sym) and v0.name in ('str:m_dir', 'field:this.m_dir')) or (isinstance(v0, Ref) and v0.loc == ('f', ('this', 'm_dir')))
+                        other = isinstance(v0, Sym) and (v0.name.startswith(('str:', 'field:', 'cwd@')))
+                        if is_dir: rep.ok('PA.5', 'visit() changes into m_dir', E[sets[0]].site)
+                        elif other: rep.violation('PA.5', 'visit() changes into m_dir', E[sets[0]].site, f'changes into something else ({v0})', key='PA.5|visit-target', fn=visit.name)
+                        else: rep.inconclusive('PA.5', 'visit() changes into m_dir', E[sets[0]].site, f'the directory passed to setWorkingDirectory ({v0}) was not followed')
+                    if saves and gets:
+                        sv = E[saves[0]]
+                        vals_ = [sv.val] + list(sv.args)
+                        from_get = any(isinstance(x, Sym) and x.name.startswith('cwd@') for x in vals_)
+                        if from_get: rep.ok('PA.5', 'what visit() saves in m_oldDir is the directory getWorkingDirectory() returned', sv.site)
+                        elif any(isinstance(x, Sym) and x.name.startswith(('str:', 'field:')) for x in vals_): rep.violation('PA.5', 'what visit() saves in m_oldDir is the directory getWorkingDirectory() returned', sv.site, f'm_oldDir receives {vals_}', key='PA.5|visit-saved', fn=visit.name)
         for saved in (True, False):
             dom = PathDomain({'m_oldDir.empty': not saved, 'm_dir.empty': False})
             dom.opaque = lambda n, _d=dom: (strip_targs(n.d.get('calleeq') or '') in (f'{P}::setWorkingDirectory', f'{P}::toString', f'{P}::getWorkingDirectory')) or EvDomain.opaque(_d, n)
             for Pp, E in run_paths(facts, dt[0], dom):
                 sets = [e for e in E if e.kind == 'call' and strip_targs(e.name) == f'{P}::setWorkingDirectory']
                 if saved:
-                    ok = len(sets) == 1 and sets[0].node.ns('args') and sets[0].node.ns('args')[0] is not None and sets[0].node.ns('args')[0].is_field('m_oldDir')
-                    rep.check(ok, 'PA.5', 'the destructor restores the saved working directory', sets[0].site if sets else dt[0].shortloc(), 'a DirectoryVisitor that changed the working directory does not restore it when destroyed', key='PA.5|dtor', fn=dt[0].name)
+                    v0 = sets[0].args[0] if sets and sets[0].args else None
+                    to_old = len(sets) == 1 and ((sets[0].node.ns('args') and sets[0].node.ns('args')[0] is not None and sets[0].node.ns('args')[0].is_field('m_oldDir')) or (isinstance(v0, Sym) and v0.name in ('str:m_oldDir', 'field:this.m_oldDir')) or (isinstance(v0, Ref) and v0.loc == ('f', ('this', 'm_oldDir'))))
+                    if to_old: rep.ok('PA.5', 'the destructor restores the saved working directory', sets[0].site)
+                    elif not sets or len(sets) > 1 or (isinstance(v0, Sym) and v0.name.startswith(('str:', 'field:', 'cwd@'))):
+                        rep.violation('PA.5', 'the destructor restores the saved working directory', sets[0].site if sets else dt[0].shortloc(), 'a DirectoryVisitor that changed the working directory does not restore it when destroyed', key='PA.5|dtor', fn=dt[0].name)
+                    else: rep.inconclusive('PA.5', 'the destructor restores the saved working directory', sets[0].site, f'the directory passed to setWorkingDirectory ({v0}) was not followed')
                 else:
                     rep.check(not sets, 'PA.5', 'nothing is restored when nothing was saved', dt[0].shortloc(), 'chdir to an empty path', key='PA.5|dtor-none', fn=dt[0].name)
 
